@@ -29,6 +29,9 @@ pub struct SysCfg {
     pub array_inputs: bool,
     /// states that have an init but no next, and states with neither
     pub nextless_states: bool,
+    /// appended to every generated name (e.g. `_state`, `_input_1`: words the btor2 front end uses for
+    /// the names it invents itself, here at the end of ordinary names)
+    pub name_suffix: String,
     pub array_eq: bool,
     /// constant arrays only as init values
     pub array_const_only_in_init: bool,
@@ -54,6 +57,7 @@ impl Default for SysCfg {
             array_states: true,
             array_inputs: false,
             nextless_states: false,
+            name_suffix: String::new(),
             array_eq: true,
             array_const_only_in_init: false,
             allow_stateless: false,
@@ -75,6 +79,7 @@ fn bits_of(ctx: &Context, s: ExprRef) -> u32 {
 }
 
 pub fn gen_system(rng: &mut Rng, ctx: &mut Context, cfg: &SysCfg, prefix: &str) -> GenSys {
+    let sfx = cfg.name_suffix.clone();
     let mut sys = TransitionSystem::new(format!("{prefix}sys"));
     // ---- symbols
     let nstates = if cfg.allow_stateless && rng.chance(1, 3) { 0 } else { rng.range(1, cfg.max_states) };
@@ -101,13 +106,13 @@ pub fn gen_system(rng: &mut Rng, ctx: &mut Context, cfg: &SysCfg, prefix: &str) 
                 }
             }
             if iw == 0 {
-                ctx.bv_symbol(&format!("{prefix}s{i}"), 1)
+                ctx.bv_symbol(&format!("{prefix}s{i}{sfx}"), 1)
             } else {
-                ctx.array_symbol(&format!("{prefix}mem{i}"), iw, dw)
+                ctx.array_symbol(&format!("{prefix}mem{i}{sfx}"), iw, dw)
             }
         } else {
             let w = (rng.range(1, cfg.max_bv_width as u64) as u32).min(remaining);
-            ctx.bv_symbol(&format!("{prefix}s{i}"), w)
+            ctx.bv_symbol(&format!("{prefix}s{i}{sfx}"), w)
         };
         bits += bits_of(ctx, s);
         state_syms.push(s);
@@ -120,7 +125,7 @@ pub fn gen_system(rng: &mut Rng, ctx: &mut Context, cfg: &SysCfg, prefix: &str) 
             break;
         }
         let w = (rng.range(1, cfg.max_bv_width as u64) as u32).min(remaining);
-        let name = if cfg.anonymous_inputs && rng.chance(1, 4) { format!("_input_{}", 10 + i) } else { format!("{prefix}in{i}") };
+        let name = if cfg.anonymous_inputs && rng.chance(1, 4) { format!("_input_{}", 10 + i) } else { format!("{prefix}in{i}{sfx}") };
         let s = if cfg.arrays && cfg.array_inputs && remaining >= 2 && rng.chance(1, 6) { ctx.array_symbol(&name, 1, 1) } else { ctx.bv_symbol(&name, w) };
         ibits += bits_of(ctx, s);
         input_syms.push(s);
@@ -257,7 +262,7 @@ pub fn gen_system(rng: &mut Rng, ctx: &mut Context, cfg: &SysCfg, prefix: &str) 
         let d = g.rng.range(0, cfg.max_depth as u64) as u32;
         let w = g.rng.range(1, cfg.max_bv_width as u64) as u32;
         let e = if g.rng.chance(1, 5) && !state_syms.is_empty() { *g.rng.pick(&state_syms) } else { g.bv(ctx, w, d) };
-        sys.add_output(ctx, format!("{prefix}out{k}").into(), e);
+        sys.add_output(ctx, format!("{prefix}out{k}{sfx}").into(), e);
     }
     // names for a few inner nodes
     let roots = all_roots(&sys);
@@ -267,7 +272,7 @@ pub fn gen_system(rng: &mut Rng, ctx: &mut Context, cfg: &SysCfg, prefix: &str) 
         for k in 0..n {
             let e = *g.rng.pick(&inner);
             if sys.names[e].is_none() {
-                let name = format!("{prefix}n{k}");
+                let name = format!("{prefix}n{k}{sfx}");
                 sys.names[e] = Some(ctx.string(name.clone().into()));
                 named.push((name, e));
             }
